@@ -106,12 +106,26 @@ def worker(ctx, shard):
                 if N.ref_name(i) != nm:
                     raise RuntimeError("oracle self-check failed at %d" % i)
         seen = set()
+        rng = ctx.rng("names%d" % lo)
+        # a large index first, then the ascending sweep, then indices in random and in descending order: the name of an index
+        # does not depend on which indices were asked for before (every call is judged by the monitor)
+        extra = [hi + 12345, 10**6 + lo, 30, 0]
+        for i in extra:
+            try:
+                U.int2name(i)
+            except Exception:
+                pass
         for i in range(lo, hi):
             try:
                 nm = U.int2name(i)
             except Exception:
                 continue  # recorded by the monitor
             seen.add(nm)
+        for i in [rng.randrange(0, hi + 5000) for _ in range(1500)] + list(range(min(hi, 800), -1, -7)):
+            try:
+                U.int2name(i)
+            except Exception:
+                pass
         n = hi - lo
         if mon.n_violations == 0:
             # injectivity re-observed directly on this shard (belt and braces)
